@@ -102,6 +102,28 @@ pub fn bulk_specs() -> &'static Vec<BulkSpec> {
                 }
             }
         }
+        // larger numbers of shares (a count that is added in one step goes through integer
+        // conversions and shifts: 8, 9, 16, 33, 300 cross the small powers of two), appended
+        // so that the indices of the cases above stay what they were
+        for n in [8usize, 16, 33] {
+            v.push(BulkSpec::Many { n, rounds: true });
+        }
+        for count in [8usize, 33, 300] {
+            for k in [0, 1, count / 2, count] {
+                for abort in [false, true] {
+                    for end_pos in [0, k] {
+                        v.push(BulkSpec::Iter { count, k, abort, end_pos, rounds: true });
+                    }
+                }
+            }
+        }
+        for pre in [0usize, 2] {
+            for n in [8usize, 9, 16, 33] {
+                for recv_pos in [0, n / 2, n] {
+                    v.push(BulkSpec::WeakMany { n, recv_pos, rounds: true, pre });
+                }
+            }
+        }
         v
     })
 }
@@ -133,7 +155,10 @@ fn bulk(p: &Params) -> Program {
                     2 => c.new_many::<2>(1).into_iter().collect(),
                     3 => c.new_many::<3>(1).into_iter().collect(),
                     4 => c.new_many::<4>(1).into_iter().collect(),
-                    _ => c.new_many::<5>(1).into_iter().collect(),
+                    5 => c.new_many::<5>(1).into_iter().collect(),
+                    8 => c.new_many::<8>(1).into_iter().collect(),
+                    16 => c.new_many::<16>(1).into_iter().collect(),
+                    _ => c.new_many::<33>(1).into_iter().collect(),
                 };
                 if v.len() != n {
                     mon().violate("C10", "wrong-share-count", format!("new_many::<{}> returned {} pointers", n, v.len()));
@@ -203,7 +228,11 @@ fn bulk(p: &Params) -> Program {
                     1 => c.weak_many::<1>(&x).into_iter().collect(),
                     2 => c.weak_many::<2>(&x).into_iter().collect(),
                     3 => c.weak_many::<3>(&x).into_iter().collect(),
-                    _ => c.weak_many::<4>(&x).into_iter().collect(),
+                    4 => c.weak_many::<4>(&x).into_iter().collect(),
+                    8 => c.weak_many::<8>(&x).into_iter().collect(),
+                    9 => c.weak_many::<9>(&x).into_iter().collect(),
+                    16 => c.weak_many::<16>(&x).into_iter().collect(),
+                    _ => c.weak_many::<33>(&x).into_iter().collect(),
                 };
                 for w in weaks.iter() {
                     if w.is_null() {
@@ -1179,6 +1208,7 @@ fn latency(p: &Params) -> Program {
             }
         }
     };
+    let pickup = p.get("pickup", 0);
     let skip = held == -2 || held >= n as i64 || (held_sel != 0 && held <= 0);
     let held = if skip { -1 } else { held };
     // mode 0: links written with store() (stamped); 1: links created by AtomicRc::from (unstamped)
@@ -1273,7 +1303,38 @@ fn latency(p: &Params) -> Program {
                     );
                 }
             };
-            c.drop_rc(head);
+            if pickup == 0 {
+                c.drop_rc(head);
+            } else {
+                // the head is picked up again through a weak pointer while its destruction is
+                // pending (count 0, attempt deferred), and released again: whoever revives it
+                // leaves a permission behind that the pending attempt must give back
+                let wk = c.downgrade(&head);
+                c.drop_rc(head);
+                match pickup {
+                    1 => {
+                        if let Some(r) = c.upgrade(&wk) {
+                            c.drop_rc(r);
+                        }
+                    }
+                    2 => {
+                        if let Some(r) = c.upgrade(&wk) {
+                            c.rounds(4);
+                            c.deref(&r);
+                            c.drop_rc(r);
+                        }
+                    }
+                    _ => {
+                        let g = c.pin();
+                        let ws = c.wsnapshot(&wk, &g);
+                        if let Some(s) = c.ws_upgrade(ws) {
+                            c.sderef(s);
+                        }
+                        c.unpin(g);
+                    }
+                }
+                c.wdrop(wk);
+            }
             wait(c, (n - survive) as u64, "dropping the head");
             if let Some(h) = held_rc {
                 // the held node and everything below it must have survived
@@ -1409,9 +1470,9 @@ fn cascade_decision(p: &Params) -> Program {
 
 /// Conversions between the pointer kinds that create or move an owner without going through the
 /// operations the other families use: `From` impls, `AtomicRc::new/take`, `AtomicWeak::get_mut`.
-pub const CONV_KINDS: usize = 12;
+pub const CONV_KINDS: usize = 14;
 pub fn conv_cases() -> i64 {
-    (CONV_KINDS * 2 * 9) as i64
+    (CONV_KINDS * 2 * 12) as i64
 }
 
 enum Produced {
@@ -1428,7 +1489,8 @@ fn conv(p: &Params) -> Program {
     let produced_first = k % 2 == 0;
     k /= 2;
     let r1 = [0usize, 1, 4][k % 3];
-    let r2 = [0usize, 1, 4][(k / 3) % 3];
+    // (8: long enough for the destruction AND the deferred release of the block to have run)
+    let r2 = [0usize, 1, 4, 8][(k / 3) % 4];
     // `only`: bit mask of the conversion kinds to run (0 = all)
     let only = p.get("only", 0);
     if only != 0 && only & (1 << kind) == 0 {
@@ -1524,6 +1586,18 @@ fn conv(p: &Params) -> Program {
                     let r = cell.take();
                     mon().settle(c.t, false, true);
                     drop(cell);
+                    Produced::R(r)
+                }
+                12 => {
+                    // re-tagging an owning pointer moves its share into the result
+                    let wk = c.downgrade(&hx).with_tag(1);
+                    if wk.tag() != 1 {
+                        mon().violate("C11", "weak-tag", "Weak::with_tag(1) did not set the tag".into());
+                    }
+                    Produced::W(wk)
+                }
+                13 => {
+                    let r = c.clone_rc(&hx).with_tag(1);
                     Produced::R(r)
                 }
                 _ => {
